@@ -15,19 +15,16 @@ open Huginn.HttpFlow
 
 def M32 : Nat := 4294967296
 
-/-- stream offset of sequence number `s` when the first stream byte is `isn + 1` (mod 2^32) -/
-def rel (isn s : Nat) : Nat := (s % M32 + M32 - (isn + 1) % M32) % M32
+/-- stream offset of sequence number `s` when the first stream byte is `isn + 1` (mod 2^32).
+(irreducible: unfolding `+ 2^32` in definitional-equality checks would never end) -/
+@[irreducible] def rel (isn s : Nat) : Nat := (s % M32 + M32 - (isn + 1) % M32) % M32
 
 /-- bytes a segment contributes from stream offset `off` on, if it covers that offset -/
 def coverFrom (isn off : Nat) (seg : Seg) : Option Bytes :=
   let r := rel isn seg.seq
   if r ≤ off ∧ off < r + seg.data.length then some (seg.data.drop (off - r)) else none
 
-def firstCover (isn off : Nat) : List Seg → Option Bytes
-  | [] => none
-  | s :: r => match coverFrom isn off s with
-    | some b => some b
-    | none => firstCover isn off r
+def firstCover (isn off : Nat) (segs : List Seg) : Option Bytes := segs.findSome? (coverFrom isn off)
 
 def totalLen : List Seg → Nat
   | [] => 0
@@ -64,21 +61,21 @@ structure St where
   doneC : Bool := false
   doneS : Bool := false
 
-/-- what must be reported, packet by packet -/
+/-- what must be reported, packet by packet: every data segment is recorded; a head is reported
+the first time the parser accepts the direction's stream so far -/
 def specRun {ρ σ} (P : Parsers ρ σ) (c : Conn) : St → List DataPkt → List (Option ρ × Option σ)
   | _, [] => []
   | st, p :: ps =>
-    if st.doneC && st.doneS then (none, none) :: specRun P c st ps
-    else if p.payload.isEmpty then (none, none) :: specRun P c st ps
+    if p.payload.isEmpty then (none, none) :: specRun P c st ps
     else if p.fromClient then
-      if st.doneC then (none, none) :: specRun P c st ps else
       let segs := st.segsC ++ [⟨p.seq, p.payload⟩]
+      if st.doneC then (none, none) :: specRun P c { st with segsC := segs } ps else
       match P.request (stream c.isnC segs) with
       | some r => (some r, none) :: specRun P c { st with segsC := segs, doneC := true } ps
       | none => (none, none) :: specRun P c { st with segsC := segs } ps
     else
-      if st.doneS then (none, none) :: specRun P c st ps else
       let segs := st.segsS ++ [⟨p.seq, p.payload⟩]
+      if st.doneS then (none, none) :: specRun P c { st with segsS := segs } ps else
       match P.response (stream c.isnS segs) with
       | some r => (none, some r) :: specRun P c { st with segsS := segs, doneS := true } ps
       | none => (none, none) :: specRun P c { st with segsS := segs } ps
@@ -119,19 +116,9 @@ def tilesFrom (isn : Nat) : Nat → List Seg → Bool
   | _, [] => true
   | off, s :: r => rel isn s.seq == off && tilesFrom isn (off + s.data.length) r
 
-def insertByRel (isn : Nat) (a : Seg) : List Seg → List Seg
-  | [] => [a]
-  | b :: r => if rel isn a.seq ≤ rel isn b.seq then a :: b :: r else b :: insertByRel isn a r
-def sortByRel (isn : Nat) : List Seg → List Seg
-  | [] => []
-  | a :: r => insertByRel isn a (sortByRel isn r)
-
-/-- received so far = a gap-free, overlap-free run from the first stream byte -/
-def Contiguous (isn : Nat) (segs : List Seg) : Bool := tilesFrom isn 0 (sortByRel isn segs)
-
-/-- every arrival prefix of the direction is contiguous (segments arrive in stream order) -/
-def AlwaysContiguous (isn : Nat) (segs : List Seg) : Bool :=
-  (List.range (segs.length + 1)).all (fun n => Contiguous isn (segs.take n))
+/-- the segments arrive in stream order, each starting where the previous one ended, the first at
+the first stream byte: at every moment what was received is a gap-free, overlap-free run -/
+def AlwaysContiguous (isn : Nat) (segs : List Seg) : Bool := tilesFrom isn 0 segs
 
 end Huginn.HttpFlow.Spec
 
